@@ -25,4 +25,5 @@ func Run(r *ev.Run) {
 		b = 3
 	}
 	pivreg.Run(r, b, deadline(r))
+	runTwoSessions(r)
 }
